@@ -129,7 +129,7 @@ def run_tlc(module, cfg, workers=None, timeout=900, env=None, simulate=None, dep
     cmd.insert(1, "-Xmx" + xmx)
     if dfs:
         cmd.insert(1, "-Dtlc2.tool.queue.IStateQueue=StateDeque")
-    cmd += ["tlc2.TLC", "-metadir", md, "-config", cfg]
+    cmd += ["tlc2.TLC", "-noGenerateSpecTE", "-metadir", md, "-config", cfg]
     cmd += ["-workers", str(workers or "auto")]
     if not deadlock:
         cmd += ["-deadlock"]
